@@ -51,6 +51,11 @@ pub const POOL: &[&str] = &[
     "$ == 5 ?> 1 |> ^~ 5",
     "k ?> ^~ 9 |> $ + 1",
     "$ == 5 && $? || ^~ 5",
+    // programs whose block emits no instruction of its own (what closes them must not be borrowed from a neighbour)
+    "( )",
+    "{ ( ) }",
+    "( ( ) )",
+    "5 ; ( )",
     // constants of every interned kind in every order: a later program that spells a constant an earlier one already
     // stored must get that constant, wherever it sits among the earlier program's other constants
     "7 2.5",
